@@ -479,8 +479,8 @@ def run(ctx):
     if len(obligations) < 5:
         ctx.checker_errors.append(f"determinism audit found only {len(obligations)} set iterations")
     for f in failures:
-        ctx.violations.append(Violation(f, f"hash-ordered iteration with an order-sensitive body: {f}",
-                                        {"property": "C12", "obligation": f, "verifier": "AST determinism audit"}, False))
+        # (a static suspicion, not an observed difference: the multi-process digests below decide)
+        ctx.undecided.append({"obligation": f, "reason": "hash-ordered iteration whose body looks order-sensitive"})
     hashseeds = list(range(1, 13)) if ctx.tier == "thorough" else [1, 2, 3, 4, 5, 6]
     res = run_seeds(ctx.tier, ctx.seed, hashseeds)
     base = res[hashseeds[0]]
